@@ -539,6 +539,77 @@ def run(prog, rep, tier):
     R911 = rep.rule("R9.11", "the DateTime stored in a rendered entry derives from the receive time only (all renderers)")
     r911(prog, rep, R911)
 
+    # ------------------------------------------------------------ R9.12 field data is copied before the next libsystemd call
+    # sd_journal_enumerate_available_data() / sd_journal_get_data() hand out memory that is valid only
+    # until the next such call: a compressed field (journald compresses fields of 512 bytes and more) is
+    # unpacked into one buffer that libsystemd reuses.  In every loop that enumerates an entry's fields
+    # no variable that lives across rounds may hold *borrowed* bytes (`&[u8]` in its type, e.g.
+    # Option<&[u8]>, Vec<&[u8]>, HashMap<&[u8], &[u8]>): what is kept must be an owned copy.  Defect
+    # F48: next_short/next_verbose kept slices; an entry with two compressed fields was printed with
+    # heap garbage in place of its MESSAGE.
+    import re as _re912
+    R912 = rep.rule("R9.12", "no borrowed field bytes are kept across calls of the field enumeration (owned copies only)")
+    n912 = 0
+    BORROWED = _re912.compile(r"&(?:'[a-z_0-9]+ )?(?:mut )?\[u8\]")
+    for rb_ in prog.bodies():
+        if not rb_.path.startswith(JR + "::") or "{closure" in rb_.path or "_tests" in rb_.path:
+            continue
+        enum_calls = [c for c in rb_.live_calls() if c.d.endswith("call_sd_journal_enumerate_available_data") and c.d != rb_.path]
+        for ec_ in enum_calls:
+            heads_ = [h_ for (s_, h_) in rb_.back_edges() if ec_.bb in rb_.loop_blocks(h_) or ec_.bb == h_]
+            if not heads_:
+                continue
+            loop_ = set()
+            for h_ in heads_:
+                loop_ |= set(rb_.loop_blocks(h_)) | {h_}
+            n912 += 1
+            kept_ = []
+            for l_, ds_ in list(rb_.defs.items()) + [(l2_, [(d_[0], d_[1], d_[3]) for d_ in pd_]) for l2_, pd_ in rb_.pdefs.items()]:
+                ty_ = rb_.local_ty(l_) or ""
+                if not BORROWED.search(ty_) or ty_.startswith("&"):
+                    continue    # plain reference temporaries are per-round; containers/options that *hold* borrowed bytes are not
+                inside_ = [d_ for d_ in ds_ if d_[0] in loop_]
+                outside_ = [d_ for d_ in ds_ if d_[0] not in loop_]
+                if inside_ and outside_ and rb_.local_name(l_):
+                    kept_.append((rb_.local_name(l_), ty_))
+            # containers of borrowed bytes that are filled inside the loop through &mut
+            for c in rb_.live_calls():
+                if c.bb not in loop_ or not c.args:
+                    continue
+                st_ = c.callee.get("self") or ""
+                if BORROWED.search(st_) and c.d.split("::")[-1] in ("insert", "push", "push_back", "extend", "entry"):
+                    kept_.append((c.d.split("::")[-1] + "()", st_))
+            rep.examined(R912, "%s|enumeration-loop" % rb_.path, sample={"function": rb_.path.split("::")[-1], "line": ec_.line, "variables_holding_borrowed_bytes_across_rounds": kept_[:4]})
+            if kept_:
+                rep.violation(R912, "%s|borrowed-field-bytes" % rb_.path, "%s: the loop over sd_journal_enumerate_available_data (line %s) keeps borrowed field bytes across rounds in %s; the data is valid only until the next call - "
+                              "a compressed field (512 bytes and more) is unpacked into a buffer libsystemd reuses, so an entry with two such fields is rendered with garbage in place of the earlier one"
+                              % (rb_.path.split("::")[-1], ec_.line, ", ".join("`%s`: %s" % k_ for k_ in kept_[:3])))
+    if n912 < 3:
+        raise CheckerError("R9.12: only %d field enumeration loops found in the journal reader" % n912)
+
+    # ------------------------------------------------------------ R9.13 the emergency stop of the field enumeration admits every entry journald can write
+    # The renderers enumerate an entry's fields in `while counter < LIMIT` loops.  journald stores up to
+    # 1024 fields per entry (ENTRY_FIELD_COUNT_MAX, journald-server.h); a smaller LIMIT silently drops the
+    # remaining fields (defect F49: LIMIT was 200 - an entry with 250 fields was exported with 199).
+    import ctrloop as _cl913
+    R913 = rep.rule("R9.13", "the bound of every field enumeration loop is above journald's per-entry field limit (1024)")
+    n913 = 0
+    for r_ in _cl913.scan(prog, only=lambda p_: p_.startswith(JR + "::")):
+        if not any("sd_journal_enumerate" in d_ for d_ in r_["callees"]):
+            continue
+        n913 += 1
+        rep.examined(R913, "%s|%s" % (r_["fn"], r_["counter"]), sample={"function": r_["fn"].split("::")[-1], "line": r_["line"], "counter": r_["counter"], "bound": r_["bound"], "comparison": r_["cmp"]})
+        try:
+            bound_ = int(r_["bound"])
+        except (TypeError, ValueError):
+            raise CheckerError("R9.13: bound of the loop at %s line %s is not an integer constant" % (r_["fn"], r_["line"]))
+        need_ = 1024 + (1 if r_["cmp"] == "Lt" else 0)
+        if r_["cmp"] in ("Lt", "Le") and bound_ < need_:
+            rep.violation(R913, "%s|%s|bound" % (r_["fn"], r_["counter"]), "%s: the field enumeration loop (line %s) stops after %s rounds; journald writes entries with up to 1024 fields, the fields beyond the bound are dropped from the rendering without a message"
+                          % (r_["fn"].split("::")[-1], r_["line"], bound_))
+    if n913 < 3:
+        raise CheckerError("R9.13: only %d counter-bounded field enumeration loops found" % n913)
+
     return rep.finish(
         "Static necessary-condition check of the journal reader: the entry instant is the journal receive time (constant override; the window "
         "test value flows from sd_journal_get_realtime_usec) and -a/-b are converted as instants; libsystemd is only asked to seek in analyze "
